@@ -47,6 +47,11 @@ def specStep (s : MuxSpec) (op : MuxOp) : String × MuxSpec × List DemuxerData 
 structure History where
   period : Nat
   ops : List MuxOp
+  /-- the muxer is created without the retransmit-period option (the harness is sent period 0 and passes no option);
+  `period` then has to be the library's default -/
+  defaultPeriod : Bool := false
+
+def History.periodArg (h : History) : Nat := if h.defaultPeriod then 0 else h.period
 
 def runModel (h : History) : List String × Bytes :=
   let (outs, _, bytes) := h.ops.foldl (fun (acc : List String × Mux × Bytes) op =>
@@ -70,7 +75,7 @@ def runSpec (h : History) : List String × Bytes × List DemuxerData :=
 def muxCase (h : History) (withSpec : Bool) (tag : String) (cls : String := "") : Case :=
   let (mo, _) := runModel h
   let (so, _, _) := runSpec h
-  { op := "mux", args := [("period", jnat h.period), ("ops", jarr (h.ops.map opJson)), ("view", jstr "seq")],
+  { op := "mux", args := [("period", jnat h.periodArg), ("ops", jarr (h.ops.map opJson)), ("view", jstr "seq")],
     model := "|".intercalate mo, spec := if withSpec then some ("|".intercalate so) else none, tag := tag, cls := cls }
 
 /-- mux → demux: the real demuxer fed with the real muxer's bytes must deliver what was written -/
@@ -81,7 +86,7 @@ def muxDemuxCase (h : History) (tag : String) (cls : String := "") : Case :=
   let spec := showPerPID (pids.map fun pid => (pid, del.filter (·.pid == pid))) 0 "eof"
   -- model: the demuxer model on the muxer model's bytes
   let dc := demuxCase mbytes { view := .perpid } none none "x"
-  { op := "mux", args := [("period", jnat h.period), ("ops", jarr (h.ops.map opJson)), ("view", jstr "demux")],
+  { op := "mux", args := [("period", jnat h.periodArg), ("ops", jarr (h.ops.map opJson)), ("view", jstr "demux")],
     model := dc.model, spec := some spec, tag := tag, cls := cls }
 
 /-! ### generators -/
@@ -342,6 +347,21 @@ def runWalk (prop : String) (t : Tier) : Emit Unit := do
 def runC04 (t : Tier) : Emit Unit := do
   runHistories "C04" t false (if t.quick then 25 else 250) 25 false
   runHistories "C04" t true (if t.quick then 10 else 100) 40 false
+  -- PES headers of 181..187 bytes, around the largest that fits a packet (183): whole packets or nothing. Such
+  -- headers need more extension-2 data than its 7-bit length can announce, so only the packet level is judged
+  -- (against the model); with and without an adaptation field, tables due or not
+  for target in [181, 182, 183, 184, 185, 186, 187] do
+    for withAF in [false, true] do
+      let d ← liftGen (genData 0x100 withAF 10)
+      let oh := d.pes.header.optionalHeader.getD {}
+      let base := 6 + calcPESOptionalHeaderLength (some { oh with hasExtension := true, hasExtension2 := true, extension2Data := [], extension2Length := 0 })
+      let ext2 ← liftGen (randBytes (target - base))
+      let oh' := { oh with hasExtension := true, hasExtension2 := true, extension2Data := ext2, extension2Length := ext2.length % 128 }
+      let sid := if hasPESOptionalHeader d.pes.header.streamID then d.pes.header.streamID else 0xe0
+      let big : MuxerData := { d with pes := { d.pes with header := { d.pes.header with optionalHeader := some oh', streamID := sid } } }
+      let d2 ← liftGen (genData 0x100 false)
+      let ops : List MuxOp := [.add { elementaryPID := 0x100, streamType := 0x1b }, .setPCR 0x100, .data big, .data d2, .data big, .tables]
+      emit "C04" (muxCase { period := 2, ops := ops } false "pes-header-around-the-largest-that-fits")
 
 def runC05 (t : Tier) : Emit Unit := do
   -- long histories: more than 16 packets per PID, failing calls in between
@@ -367,6 +387,12 @@ def runC17 (t : Tier) : Emit Unit := do
     emit "C17" (muxCase { period := 40, ops := ops } true "version-wrap")
   runHistories "C17" t true (if t.quick then 10 else 100) 50 false
   runWalk "C17" t
+  -- a muxer created without the period option: the default period (40 WriteData calls) applies
+  let mut dops : List MuxOp := [.add { elementaryPID := 0x100, streamType := 0x1b }, .setPCR 0x100]
+  for _ in [0:85] do
+    let d ← liftGen (genData 0x100 false)
+    dops := dops ++ [.data { d with pes := { d.pes with data := d.pes.data.take 20 } }]
+  emit "C17" (muxCase { period := 40, ops := dops, defaultPeriod := true } true "default-period")
 
 /-! ### one MuxerData / adaptation field object reused across calls
 
@@ -544,15 +570,24 @@ def runC18w (t : Tier) : Emit Unit := do
     let shortPl ← liftGen (randBytes shortLen)
     let pShort : Packet := { adaptationField := none, payload := shortPl, header := { p.header with hasAdaptationField := false, hasPayload := true } }
     finals := finals ++ [(.packet pShort, "packet-padded")]
+    -- a packet whose adaptation field has every optional part and the whole extension: every Write of it fails in turn
+    let ext : PacketAdaptationExtensionField := { dtsNextAccessUnit := some { base := 0x123456789, extension := 0 }, hasLegalTimeWindow := true, hasPiecewiseRate := true, hasSeamlessSplice := true, legalTimeWindowIsValid := true, legalTimeWindowOffset := 0x1234, length := 11, piecewiseRate := 0x2abcde, spliceType := 5 }
+    let fullAF : PacketAdaptationField := { adaptationExtensionField := some ext, opcr := some { base := 0x1fedcba98, extension := 0x155 }, pcr := some { base := 0x0abcdef12, extension := 0xaa }, transportPrivateData := [1, 2, 3, 4, 5], transportPrivateDataLength := 5, length := 36, stuffingLength := 3, spliceCountdown := 0x7f, hasAdaptationExtensionField := true, hasOPCR := true, hasPCR := true, hasTransportPrivateData := true, hasSplicingCountdown := true }
+    let fullPl ← liftGen (randBytes (184 - 37))
+    let pFull : Packet := { adaptationField := some fullAF, payload := fullPl, header := { p.header with hasAdaptationField := true, hasPayload := true } }
+    finals := finals ++ [(.packet pFull, "packet-full-af")]
     for (fop, name) in finals do
       let w := if name = "packet-padded" then 4 + 1 + (184 - shortLen) else writeCallsOf m fop
       let h : History := { period := period, ops := h0.ops ++ [fop] }
       let kind := match fop with | .tables => "tables" | .data _ => "data" | _ => "packet"
       let stride := if t.quick then 23 else 3
       for k in [0:w] do
-        if k % stride != 0 && k + 3 < w && k > 8 then continue
+        if name != "packet-full-af" && k % stride != 0 && k + 3 < w && k > 8 then continue
+        if name = "packet-full-af" && i > 0 then continue
         let once ← liftGen randBool
         emit "C18" (faultCase h k once s!"{kind}:err=io:nle=true" ("writer-fault-" ++ name))
+        if name = "packet-full-af" then
+          emit "C18" (faultCase h k (!once) s!"{kind}:err=io:nle=true" ("writer-fault-" ++ name))
       -- a fault armed beyond the last Write of the call is not hit: the call succeeds
       emit "C18" (faultCase h (w + 5) true s!"{kind}:err=none:nle=true" ("writer-nofault-" ++ name))
 
